@@ -320,6 +320,16 @@ func referenceExists(s storer.ReferenceStorer, n plumbing.ReferenceName) (bool, 
 	return err == nil, err
 }
 
+// storedValue returns the reference n if it currently is a hash reference
+// whose value is old, the value the client based its command on.
+func storedValue(s storer.ReferenceStorer, n plumbing.ReferenceName, old plumbing.Hash) (*plumbing.Reference, bool) {
+	cur, err := s.Reference(n)
+	if err != nil || cur.Type() != plumbing.HashReference || !cur.Hash().Equal(old) {
+		return nil, false
+	}
+	return cur, true
+}
+
 func updateReferences(st storage.Storer, req *packp.UpdateRequests, cmdStatus map[plumbing.ReferenceName]error, firstErr *error) {
 	for _, cmd := range req.Commands {
 		exists, err := referenceExists(st, cmd.Name)
@@ -339,7 +349,7 @@ func updateReferences(st storage.Storer, req *packp.UpdateRequests, cmdStatus ma
 			err := st.SetReference(ref)
 			setStatus(cmdStatus, firstErr, cmd.Name, err)
 		case packp.Delete:
-			if !exists {
+			if _, ok := storedValue(st, cmd.Name, cmd.Old); !ok {
 				setStatus(cmdStatus, firstErr, cmd.Name, ErrUpdateReference)
 				continue
 			}
@@ -347,14 +357,22 @@ func updateReferences(st storage.Storer, req *packp.UpdateRequests, cmdStatus ma
 			err := st.RemoveReference(cmd.Name)
 			setStatus(cmdStatus, firstErr, cmd.Name, err)
 		case packp.Update:
-			if !exists {
+			cur, ok := storedValue(st, cmd.Name, cmd.Old)
+			if !ok {
 				setStatus(cmdStatus, firstErr, cmd.Name, ErrUpdateReference)
 				continue
 			}
 
+			// Compare-and-swap: the storage compares the stored value with cur
+			// again under its own lock, so of two concurrent pushes that carry
+			// the same old value only one is applied.
 			ref := plumbing.NewHashReference(cmd.Name, cmd.New)
-			err := st.SetReference(ref)
-			setStatus(cmdStatus, firstErr, cmd.Name, err)
+			if err := st.CheckAndSetReference(ref, cur); err != nil {
+				err = fmt.Errorf("%w: %v", ErrUpdateReference, err)
+				setStatus(cmdStatus, firstErr, cmd.Name, err)
+				continue
+			}
+			setStatus(cmdStatus, firstErr, cmd.Name, nil)
 		}
 	}
 }
